@@ -80,7 +80,16 @@ def run(ctx, replay):
                 shutil.copy(src, dst)
     binary = ctx.build_harness("danecheck")
     items = [{"id": row["id"], "in": row["in"]} for row in rows]
-    events = ctx.run_shards(binary, items, timeout=1200)
+    # rows whose chains are also valid under the platform trust store run in processes that install the
+    # generated CA as platform root set (x509.SetFallbackRoots is per process)
+    sys_ids = {row["id"] for row in rows if row["in"].get("sys")}
+    events = []
+    for flag, part in (("0", [it for it in items if it["id"] not in sys_ids]),
+                       ("1", [it for it in items if it["id"] in sys_ids])):
+        if part:
+            events += ctx.run_shards(binary, part, timeout=1200, name="replay-sys" + flag,
+                                     env_extra={"VERIF_SYSROOTS": flag, "GODEBUG": "x509usefallbackroots=1"})
+    events.sort(key=lambda e: (e["t"], e["seq"]))
     if len(events) != len(rows):
         raise vlib.Infra("harness answered %d of %d rows" % (len(events), len(rows)))
     ev_by_t = {e["t"]: e for e in events}
@@ -157,7 +166,10 @@ def run(ctx, replay):
     ctx.cov["drift_traces"] = drift
     ctx.cov["evaluations"] = len(rows)
     ctx.cov["distinct_nontrivial"] = sum(1 for row in rows if nontrivial(row))
-    ctx.cov["discovery_rows"] = sum(1 for row in rows if row["in"]["rounds"][0]["lookup"] == "disc")
+    ctx.cov["discovery_rows"] = sum(1 for row in rows if row["in"]["rounds"][0]["lookup"] in ("disc", "target"))
+    ctx.cov["platform_trusted_chain_rows"] = len(sys_ids)
+    ctx.cov["cname_rows"] = sum(1 for row in rows if row["in"]["rounds"][0]["disc"].get("cname", "-") != "-")
+    ctx.cov["remote_target_rows"] = sum(1 for row in rows if row["in"]["rounds"][0]["lookup"] == "target")
     ctx.cov["wire_rows"] = sum(1 for row in rows if row["in"]["rounds"][0]["lookup"] == "wire")
     ctx.cov["rows_by_incoming_levels"] = {}
     for row in rows:
@@ -171,7 +183,9 @@ def run(ctx, replay):
                        "matching leaf/intermediate/root/nothing) x 5 chains x handshake, concretised over all raw "
                        "usage/selector/matching-type values by rotation (salts), every single raw record, lookup "
                        "outcomes, the discovery table, every RRset also published in a signed zone and fetched through the real "
-                       "resolver path (lookup = wire), the incoming (MX level, TLS level) of CheckConn rotated over all 9 "
+                       "resolver path (lookup = wire), MX names that are CNAMEs (secure / initial zone only / insecure x TLSA answer "
+                       "at the canonical name x at the original name), delivery attempts of the real remote target to an "
+                       "IDN MX host, chains that are also valid under the platform trust store (in.sys), the incoming (MX level, TLS level) of CheckConn rotated over all 9 "
                        "combinations and fully crossed with the decisive record situations, and histories of 2 and 3 MX candidates (9 situations each) served "
                        "by one delivery object, in order and with an abandoned first attempt whose lookup answers late; "
                        "distinct by construction (TLC states); non-trivial = a history of several MXs, a usable record, "
@@ -193,6 +207,10 @@ def run(ctx, replay):
         "discovery rows and histories use the repo's own mock DNS server (go-mockdns) over loopback UDP behind a gate "
         "that can hold the answers about one MX; the order of concurrent lookups is decided by that gate and observed "
         "on the lookup-result holders (export shim), never by a timer",
+        "rows with in.sys run in processes whose platform root set is the generated CA (x509.SetFallbackRoots)",
+        "remote-target rows: scripted SMTP server (harness/scripted), a probe policy after mx_auth.dane observes the "
+        "TLS level; they run only in processes where the chain is not platform-trusted, so 'authenticated' can only "
+        "come from DANE",
         "every MX of a history has its own name (mx<k>.example.invalid), leaf certificate and TLSA RRset",
         "TLC 1.8.0, CommunityModules Json",
     ]
